@@ -515,37 +515,106 @@ impl<'tcx> Dumper<'tcx> {
                 o.set("res_err", J::Bool(true));
             }
         }
-        // predicates mentioning local types (for callback edges) - only for foreign callees
-        if !did.is_local() {
-            let mentions_local = args.iter().any(|a| self.mentions_local(a));
-            if mentions_local {
-                let mut preds = Vec::new();
-                let mut cur = Some(did);
-                let mut guard = 0;
-                while let Some(d) = cur {
-                    guard += 1;
-                    if guard > 4 {
-                        break;
-                    }
-                    let gp = tcx.predicates_of(d);
-                    let n = tcx.generics_of(d).count();
-                    if n <= args.len() {
-                        let inst = gp.instantiate_own(tcx, args);
-                        for (clause, _) in inst {
-                            let clause = clause.skip_normalization();
-                            if let Some(tp) = clause.as_trait_clause() {
-                                let tp = tp.skip_binder();
-                                let s = format!("{}", tp.trait_ref);
-                                preds.push(J::s(&s));
-                            }
-                        }
-                    }
-                    cur = gp.parent;
-                }
-                o.set("preds", J::Arr(preds));
-            }
+        // callback edges for foreign callees: which traits can the callee (transitively,
+        // through the impls it selects) invoke on *local* types?  Elaborate the
+        // instantiated where-clauses of the resolved callee, selecting impls.
+        let (rdid, rargs) = match &resolved {
+            Ok(Ok(Some(inst))) => (inst.def_id(), inst.args),
+            _ => (did, args),
+        };
+        if !rdid.is_local() && args.iter().any(|a| self.mentions_local(a)) {
+            let cbs = self.elaborate_callbacks(env, rdid, rargs);
+            o.set("callbacks", J::Arr(cbs.iter().map(|s| J::s(s)).collect()));
         }
         o
+    }
+
+
+    /// Transitive closure of trait predicates reachable from the where-clauses of
+    /// (did, args), following selected impls; returns "Trait|SelfTy" for predicates
+    /// whose self type is a local ADT / closure.  Bounded; fails open to "?" entries
+    /// (the rule engines treat "?" as "all local impls").
+    fn elaborate_callbacks(&self, env: TypingEnv<'tcx>, did: DefId, args: ty::GenericArgsRef<'tcx>) -> Vec<String> {
+        let tcx = self.tcx;
+        let mut out: Vec<String> = Vec::new();
+        let mut seen: std::collections::HashSet<String> = std::collections::HashSet::new();
+        let mut work: Vec<(DefId, ty::GenericArgsRef<'tcx>, usize)> = vec![(did, args, 0)];
+        let mut steps = 0usize;
+        while let Some((d, a, depth)) = work.pop() {
+            steps += 1;
+            if steps > 4000 {
+                out.push("?|budget".to_string());
+                break;
+            }
+            // predicates of d and its parents
+            let mut cur = Some(d);
+            let mut guard = 0;
+            while let Some(dd) = cur {
+                guard += 1;
+                if guard > 4 {
+                    break;
+                }
+                let gp = tcx.predicates_of(dd);
+                let n = tcx.generics_of(dd).count();
+                if n <= a.len() {
+                    for (clause, _) in gp.instantiate_own(tcx, a) {
+                        let clause = clause.skip_normalization();
+                        let Some(tp) = clause.as_trait_clause() else { continue };
+                        let Some(tp) = tp.no_bound_vars() else { continue };
+                        let tr = tp.trait_ref;
+                        let tr = match tcx.try_normalize_erasing_regions(env, ty::Unnormalized::new_wip(tr)) {
+                            Ok(t) => t,
+                            Err(_) => {
+                                continue;
+                            }
+                        };
+                        let key = format!("{}", tr);
+                        if !seen.insert(key) {
+                            continue;
+                        }
+                        if tcx.is_lang_item(tr.def_id, rustc_hir::LangItem::Sized)
+                            || tcx.is_lang_item(tr.def_id, rustc_hir::LangItem::MetaSized)
+                            || tcx.trait_is_auto(tr.def_id)
+                        {
+                            continue;
+                        }
+                        let self_ty = tr.self_ty();
+                        let local_self = match self_ty.kind() {
+                            TyKind::Adt(adt, _) => adt.did().is_local(),
+                            TyKind::Closure(c, _) | TyKind::Coroutine(c, _) => c.is_local(),
+                            _ => false,
+                        };
+                        if local_self {
+                            out.push(format!("{}|{}", tcx.def_path_str(tr.def_id), self_ty));
+                        }
+                        if depth >= 8 {
+                            continue;
+                        }
+                        // has params? cannot select
+                        if tr.args.iter().any(|x| x.walk().any(|g| matches!(g.as_type().map(|t| t.kind()), Some(TyKind::Param(_))))) {
+                            continue;
+                        }
+                        let sel = std::panic::catch_unwind(std::panic::AssertUnwindSafe(|| {
+                            tcx.codegen_select_candidate(env.as_query_input(tr))
+                        }));
+                        if let Ok(Ok(src)) = sel {
+                            if let rustc_middle::traits::ImplSource::UserDefined(ud) = src {
+                                if !ud.impl_def_id.is_local() {
+                                    work.push((ud.impl_def_id, ud.args, depth + 1));
+                                }
+                            }
+                        }
+                        // supertraits / trait's own where clauses
+                        let trargs = tr.args;
+                        work.push((tr.def_id, trargs, depth + 1));
+                    }
+                }
+                cur = gp.parent;
+            }
+        }
+        out.sort();
+        out.dedup();
+        out
     }
 
     fn mentions_local(&self, a: ty::GenericArg<'tcx>) -> bool {
